@@ -970,9 +970,16 @@ def install_stub_libs():
                                 "headers": dict(kwargs.get("headers") or {}),
                                 "kw": sorted(k for k in kwargs if k != "headers")})
             if via == "gateway":
-                outcome, payload, dur = WORLD.gateway
+                outcome, payload, dur = WORLD.gateway[:3]
+                retries, retry_after = (tuple(WORLD.gateway[3:5]) + (0, 0.0))[:2] if len(WORLD.gateway) > 3 else (0, 0.0)
                 CLOCK.advance(dur)
-                if outcome == "ok":
+                n_gw = sum(1 for c in WORLD.calls if c["via"] == "gateway")
+                WORLD.last_gateway_answer_at = CLOCK.now
+                if n_gw <= retries:
+                    # the gateway's retry protocol: "send this again in <n> seconds, quoting this sequence id"
+                    r = Response(429, {"content-type": "text/plain", "x-lunar-retry-after": repr(float(retry_after)),
+                                       "x-lunar-sequence-id": "seq-%d" % len(WORLD.calls)}, via)
+                elif outcome == "ok":
                     r = Response(200, {"content-type": "text/plain"}, via)
                 elif outcome == "hdr":
                     r = Response(503, {"content-type": "text/plain", "X-Lunar-Error": payload}, via)
@@ -1062,7 +1069,7 @@ class HookHarness:
         except Exception as e:  # noqa: BLE001
             raise Infra("RequestsHook could not be installed on the stub requests module: %r" % (e,))
         self.session = S.rq.Session()
-        self.n_calls = self.n_gateway = self.n_direct = self.n_fallback = self.n_app = self.n_known = 0
+        self.n_calls = self.n_gateway = self.n_direct = self.n_fallback = self.n_app = self.n_known = self.n_retried = 0
 
     def close(self):
         if self.hook is not None:
@@ -1074,16 +1081,20 @@ class HookHarness:
         self.case["steps"].append(["adv", delta])
         CLOCK.advance(delta)
 
-    def call(self, dest, gw, code, gw_exc, dur, direct, direct_exc, method, with_headers):
-        self.case["steps"].append(["call", dest, gw, code, gw_exc, dur, direct, direct_exc, method, bool(with_headers)])
-        where = "step #%d %s %s (gateway would answer %s, provider %s)" % (len(self.case["steps"]), method, dest, gw, direct)
+    def call(self, dest, gw, code, gw_exc, dur, direct, direct_exc, method, with_headers, retries=0, retry_after=0.0):
+        self.case["steps"].append(["call", dest, gw, code, gw_exc, dur, direct, direct_exc, method, bool(with_headers),
+                                   int(retries), float(retry_after)])
+        where = "step #%d %s %s (gateway would answer %s%s, provider %s)" % (
+            len(self.case["steps"]), method, dest,
+            "%d time(s) 'send again in %ss', then " % (retries, retry_after) if retries else "", gw, direct)
         host = HOOK_DESTS[dest][0]
         url = "https://%s/v1/items?q=1" % ("[%s]" % host if ":" in host else host)
         gw_payload = code if gw == "hdr" else (hook_exc(gw_exc) if gw == "app" else None)
         direct_payload = hook_exc(direct_exc) if direct != "ok" else None
         WORLD.calls = []
-        WORLD.gateway = (gw, gw_payload, dur)
+        WORLD.gateway = (gw, gw_payload, dur, int(retries), float(retry_after))
         WORLD.direct = (direct, direct_payload)
+        WORLD.last_gateway_answer_at = None
         t_start = CLOCK.now
         kwargs = {"timeout": 3}
         if with_headers:
@@ -1145,6 +1156,15 @@ class HookHarness:
 
         if routed:
             self.n_gateway += 1
+            if retries:
+                # the gateway's retry protocol: every "send again" answer is followed by the same request through the
+                # gateway; the call as a whole ends the way its last gateway request ends
+                self.n_retried += 1
+                head = calls[:retries + 1]
+                if len(head) != retries + 1 or any(c["via"] != "gateway" for c in head):
+                    violation(self.case, "%s: expected %d requests through the gateway (the first %d answered 'send again'), saw %s" % (
+                        where, retries + 1, retries, [c["via"] for c in calls]))
+                calls = calls[retries:]
             g = calls[0]  # how the gateway request is shaped (headers, path) is not part of the statement
             if gw == "ok":
                 if len(calls) != 1:
@@ -1157,7 +1177,7 @@ class HookHarness:
             elif gw in ("hdr", "conn"):
                 self.n_fallback += 1
                 expect_direct_tail(calls[1:], "after the gateway-side failure")
-                self.ref.gateway_failure(t_start + dur)
+                self.ref.gateway_failure(WORLD.last_gateway_answer_at if retries else t_start + dur)
             else:
                 self.n_app += 1
                 if len(calls) != 1:
@@ -1182,6 +1202,7 @@ class HookHarness:
         rec.cls("steps", len(self.case["steps"]))
         rec.cls("calls", self.n_calls)
         rec.cls("calls via gateway", self.n_gateway)
+        rec.cls("calls the gateway first answered with 'send again' (retry protocol)", self.n_retried)
         rec.cls("calls sent directly (open or filtered)", self.n_direct)
         rec.cls("gateway failures followed by direct fallback", self.n_fallback)
         rec.cls("non-gateway exceptions propagated", self.n_app)
@@ -1427,10 +1448,12 @@ def test_requests_hook(checks, seed_value):
         ("direct_exc", list(HOOK_DIRECT_EXC)),
         ("method", ["GET", "POST"]),
         ("with_headers", [False, True]),
+        ("retries", [0, 0, 0, 0, 1, 1, 2, 3]),
+        ("retry_after", [0.0, 0.5, 2.0]),
     ])
     fail_args = packed([("dest", ["public_ip", "public_name"]), ("gw", ["conn", "hdr"]), ("wait", WAIT_OPTS),
                         ("direct", ["ok", "ok", "exc"]), ("dur", [0.0, 0.0, 0.25]), ("code", list(ERR_CODES)),
-                        ("direct_exc", list(HOOK_DIRECT_EXC))])
+                        ("direct_exc", list(HOOK_DIRECT_EXC)), ("retries", [0, 0, 1, 2]), ("retry_after", [0.0, 0.5])])
     adv_args = packed(ADV_FIELDS)
 
     class HookMachine(RuleBasedStateMachine):
@@ -1446,12 +1469,13 @@ def test_requests_hook(checks, seed_value):
         def call(self, a):
             wait_for_expiry(self.h, a["wait"])
             self.h.call(a["dest"], a["gw"], a["code"], a["gw_exc"], a["dur"], a["direct"], a["direct_exc"],
-                        a["method"], a["with_headers"])
+                        a["method"], a["with_headers"], a["retries"], a["retry_after"])
 
         @rule(a=fail_args)
         def failing_call(self, a):
             wait_for_expiry(self.h, a["wait"])
-            self.h.call(a["dest"], a["gw"], a["code"], "value", a["dur"], a["direct"], a["direct_exc"], "GET", False)
+            self.h.call(a["dest"], a["gw"], a["code"], "value", a["dur"], a["direct"], a["direct_exc"], "GET", False,
+                        a["retries"], a["retry_after"])
 
         @rule(a=adv_args)
         def advance(self, a):
